@@ -2,6 +2,7 @@ package main
 
 import (
 	"fmt"
+	"go/ast"
 	"go/constant"
 	"go/token"
 	"go/types"
@@ -181,6 +182,10 @@ func checkC09(r *Report) {
 	}
 	r.floor("C09.d/NIL-SPAN", "dereferences of span bounds in set.go", cnt, 8)
 	touchBothFlagsRule(r, p, "C09.e/TOUCH-BOTH-FLAGS")
+	nK := skipCounterRule(r, p, "C09.g/SKIP-COUNTER", "semver")
+	r.floor("C09.g/SKIP-COUNTER", "merge loops (inner index starting at the outer index + 1) in package semver", nK, 1)
+	nF := canonFreshRule(r, p, "C09.f/CANON-FRESH")
+	r.floor("C09.f/CANON-FRESH", "calls of canon in package semver", nF, 3)
 }
 
 // touchBothFlagsRule: see checkC09 (C09.e).
@@ -295,4 +300,210 @@ func touchBothFlagsRule(r *Report, p *Prog, rule string) {
 		}
 	}
 	r.floor(rule, "max-meets-min equalities in Intersect and canon", n, 2)
+}
+
+// canonFreshRule (C09.f CANON-FRESH): canon sorts and rewrites its argument in
+// place. A Set is a value whose copies share the backing array of span, so a
+// caller must hand canon a slice whose array it allocated itself; a slice
+// grown by append from an operand's span writes into (and then reorders) the
+// array every copy of that operand still reads.
+func canonFreshRule(r *Report, p *Prog, rule string) int {
+	canon := p.lookupFn("semver.canon")
+	if canon == nil {
+		r.bad(rule, "semver.canon", "", "function not found: anchor lost")
+		return 0
+	}
+	n := 0
+	for _, f := range p.Funcs {
+		if !p.inScope(f) || f.Blocks == nil || f.Pkg != canon.Pkg {
+			continue
+		}
+		for _, b := range f.Blocks {
+			for _, in := range b.Instrs {
+				c, ok := in.(*ssa.Call)
+				if !ok || c.Common().StaticCallee() != canon || len(c.Common().Args) != 1 {
+					continue
+				}
+				n++
+				key := fmt.Sprintf("%s: slice handed to canon is allocated here", fnKey(f))
+				state := map[ssa.Value]int{} // 1 = in progress (assumed fresh), 2 = fresh, 3 = not fresh
+				var culprit ssa.Value
+				var fresh func(v ssa.Value) bool
+				fresh = func(v ssa.Value) bool {
+					switch state[v] {
+					case 1, 2:
+						return true
+					case 3:
+						return false
+					}
+					state[v] = 1
+					res := false
+					switch x := v.(type) {
+					case *ssa.MakeSlice:
+						res = true
+					case *ssa.Const:
+						res = x.IsNil()
+					case *ssa.Slice:
+						if al, ok := x.X.(*ssa.Alloc); ok {
+							_, isArr := al.Type().Underlying().(*types.Pointer).Elem().Underlying().(*types.Array)
+							res = isArr
+						} else {
+							res = fresh(x.X)
+						}
+					case *ssa.Phi:
+						res = true
+						for _, e := range x.Edges {
+							if !fresh(e) {
+								res = false
+							}
+						}
+					case *ssa.Call:
+						if bi, ok := x.Common().Value.(*ssa.Builtin); ok && bi.Name() == "append" {
+							res = fresh(x.Common().Args[0])
+						} else if sc := x.Common().StaticCallee(); sc != nil && sc.Pkg != nil && sc.Pkg.Pkg.Path() == "slices" && sc.Name() == "Clone" {
+							res = true
+						}
+					case *ssa.Extract:
+						// the result of canon itself is as fresh as what it was given
+						if cc, ok := x.Tuple.(*ssa.Call); ok && cc.Common().StaticCallee() == canon && x.Index == 0 {
+							res = fresh(cc.Common().Args[0])
+						}
+					}
+					if res {
+						state[v] = 2
+					} else {
+						state[v] = 3
+						if culprit == nil {
+							culprit = v
+						}
+					}
+					return res
+				}
+				if fresh(c.Common().Args[0]) {
+					r.ok(rule, key, p.pos(c.Pos()), "the argument is built from nil, make, a literal or appends to those")
+				} else {
+					what := "a value not allocated in this function"
+					if culprit != nil {
+						what = culprit.String()
+						if culprit.Pos().IsValid() {
+							what += " at " + p.pos(culprit.Pos())
+						}
+					}
+					r.bad(rule, key, p.pos(c.Pos()), "canon rewrites its argument in place, and the slice it is given here starts from "+what+": copies of the operand (Constraint.Set returns one) share that array, so the operand's spans are overwritten and reordered")
+				}
+			}
+		}
+	}
+	return n
+}
+
+// skipCounterRule (C09.g SKIP-COUNTER): a merge loop of the form
+//
+//	for i := 0; i < n; i++ { for j := i + 1; j < n; j++ { ...; i++; ... } }
+//
+// uses i++ to say "s[j] has been consumed, the outer loop must not visit it".
+// That is right only while j == i+1 on entry to every inner iteration, i.e.
+// only if every inner iteration that goes on to the next j has advanced i.
+// An inner `continue` that comes before the i++ leaves s[j] unconsumed; when a
+// later j is consumed, the outer loop skips the unconsumed element instead (it
+// is dropped) and visits the consumed one again.
+func skipCounterRule(r *Report, p *Prog, rule string, pkgs ...string) int {
+	n := 0
+	for _, rel := range pkgs {
+		pk := p.pkg(rel)
+		if pk == nil {
+			continue
+		}
+		for _, f := range pk.Syntax {
+			if strings.HasSuffix(p.Fset.Position(f.Pos()).Filename, "_test.go") {
+				continue
+			}
+			ord := map[string]int{}
+			ast.Inspect(f, func(nd ast.Node) bool {
+				outer, ok := nd.(*ast.ForStmt)
+				if !ok || outer.Post == nil {
+					return true
+				}
+				inc, ok := outer.Post.(*ast.IncDecStmt)
+				if !ok || inc.Tok != token.INC {
+					return true
+				}
+				oid, ok := inc.X.(*ast.Ident)
+				if !ok {
+					return true
+				}
+				ovar := pk.TypesInfo.Uses[oid]
+				for _, st := range outer.Body.List {
+					inner, ok := st.(*ast.ForStmt)
+					if !ok || inner.Init == nil {
+						continue
+					}
+					// j := i + 1
+					as, ok := inner.Init.(*ast.AssignStmt)
+					if !ok || len(as.Rhs) != 1 {
+						continue
+					}
+					be, ok := ast.Unparen(as.Rhs[0]).(*ast.BinaryExpr)
+					if !ok || be.Op != token.ADD {
+						continue
+					}
+					bx, ok := be.X.(*ast.Ident)
+					if !ok || pk.TypesInfo.Uses[bx] != ovar {
+						continue
+					}
+					n++
+					fn := p.enclosingFuncName(inner.Pos())
+					ord[fn]++
+					key := fmt.Sprintf("%s: inner loop #%d from %s+1", fn, ord[fn], oid.Name)
+					// the statement in the inner body that advances the outer counter
+					var adv *ast.IncDecStmt
+					topLevel := false
+					ast.Inspect(inner.Body, func(m ast.Node) bool {
+						if _, ok := m.(*ast.FuncLit); ok {
+							return false
+						}
+						if is, ok := m.(*ast.IncDecStmt); ok && is.Tok == token.INC {
+							if x, ok := is.X.(*ast.Ident); ok && pk.TypesInfo.Uses[x] == ovar && adv == nil {
+								adv = is
+							}
+						}
+						return true
+					})
+					if adv == nil {
+						r.ok(rule, key, p.pos(inner.Pos()), "the inner loop does not advance the outer counter")
+						continue
+					}
+					for _, s2 := range inner.Body.List {
+						if s2 == ast.Stmt(adv) {
+							topLevel = true
+						}
+					}
+					var bypass []string
+					ast.Inspect(inner.Body, func(m ast.Node) bool {
+						switch x := m.(type) {
+						case *ast.FuncLit, *ast.ForStmt, *ast.RangeStmt:
+							if m != ast.Node(inner.Body) {
+								return false
+							}
+						case *ast.BranchStmt:
+							if x.Tok == token.CONTINUE && x.Label == nil && x.Pos() < adv.Pos() {
+								bypass = append(bypass, p.pos(x.Pos()))
+							}
+						}
+						return true
+					})
+					switch {
+					case !topLevel:
+						r.bad(rule, key, p.pos(adv.Pos()), "the outer counter is advanced under a condition inside the inner loop: an iteration that does not advance it leaves an unconsumed element between the outer position and the elements consumed later, and the outer loop then skips the wrong one")
+					case len(bypass) > 0:
+						r.bad(rule, key, p.pos(adv.Pos()), fmt.Sprintf("%s++ marks the element at the inner index as consumed, but %d `continue` statement(s) before it go on to the next inner index without it (%s): once a later element is consumed the outer loop skips the unconsumed one, which is dropped from the result, and visits the consumed one again", oid.Name, len(bypass), strings.Join(bypass, ", ")), bypass...)
+					default:
+						r.ok(rule, key, p.pos(adv.Pos()), "every path to the next inner index passes the advance of the outer counter")
+					}
+				}
+				return true
+			})
+		}
+	}
+	return n
 }
